@@ -10,8 +10,12 @@ WEIGHTS = [0.1, 0.5, 0.5, 0.5, 0.9, 0.25, 0.75]
 delta = st.sampled_from(DELTAS)
 asset = st.sampled_from(ASSETS)
 sched_asset = st.sampled_from([1, 1, 2, 2, 3, 9])
+# a dense cluster of custom priorities that differ by less than one from each other, from a built-in one or from
+# TERMINATE (1): same-instant events then differ only in the fractional part of their priority
+DENSE = [4, 4.5, 4.9, 5, 5.1, 4.1, 1.5, 1.1, 2, 1.9]
 prio = st.one_of(st.sampled_from(BUILTIN), st.sampled_from(BUILTIN),
-                 st.builds(lambda k, f: k + f, st.sampled_from(BUILTIN), st.sampled_from(FRACS)))
+                 st.builds(lambda k, f: k + f, st.sampled_from(BUILTIN), st.sampled_from(FRACS)),
+                 st.sampled_from(DENSE))
 
 
 def inner_ops(depth):
